@@ -220,20 +220,20 @@ def step (line : String) : String :=
     let toks := Disp.refresh (w.toNat?.getD 80) [62, 32] [9492, 32] (prevRow.toNat?.getD 0) (pp == "1") (parseNats l) (pos.toNat?.getD 0)
     let cc := Disp.coordsCursor (w.toNat?.getD 80) (parseNats l) (pos.toNat?.getD 0) 2
     s!"{cc.2} " ++ " ".intercalate (toks.map Disp.showTk)
-  | ["refresh2", w, la, pa, lb, pb] =>
+  | ["refresh2", w, la, pa, lb, pb, pr] =>
     -- the redisplay of buffer B over the frame of buffer A (prompt "> " on row 0): its tokens, then the
     -- cursor and the screen of the terminal model after the whole session (initial prompt, the redisplay
     -- of the empty buffer, of A, of B)
     let wd := w.toNat?.getD 80
-    let prompt : List Nat := [62, 32]
+    let prompt : List Nat := parseNats pr
     let sec : List Nat := [9492, 32]
     let a := parseNats la
     let b := parseNats lb
     let posA := pa.toNat?.getD 0
     let posB := pb.toNat?.getD 0
-    let rowA := (Disp.coordsCursor wd a posA 2).2
+    let rowA := (Disp.coordsCursor wd a posA prompt.length).2
     let t0 : Term := { w := wd, cell := fun _ _ => 32, x := 0, y := 0, pw := false }
-    let toks0 := [Disp.Tk.text prompt] ++ Disp.refresh wd prompt sec 0 true [] 0
+    let toks0 := (if prompt.isEmpty then [] else [Disp.Tk.text prompt]) ++ Disp.refresh wd prompt sec 0 true [] 0
     let toksA := Disp.refresh wd prompt sec 0 false a posA
     let toksB := Disp.refresh wd prompt sec rowA false b posB
     let t := ((t0.run toks0).run toksA).run toksB
